@@ -53,6 +53,11 @@ func checkAPIKey(apikey string) (isValid, isRoot bool) {
 		logs.Warn.Println("failed to decode.base64 appid ", err)
 		return
 	}
+	if len(data) != apikeyLength {
+		// The decoder skips new line characters: the value may be shorter than its encoded length suggests.
+		logs.Warn.Println("invalid length of decoded appid ", len(data))
+		return
+	}
 	if data[0] != 1 {
 		logs.Warn.Println("unknown appid signature algorithm ", data[0])
 		return
